@@ -500,3 +500,42 @@ func applyAlias(root map[string]interface{}, a AliasSpec, share bool) bool {
 	}
 	return true
 }
+
+// boostEmptyKey: the empty string is a legal JSON name, so a path segment may be empty (".a", "b..a").
+// The path never ENDS in an empty segment (ValuesForPath tolerates a trailing dot, i.e. drops it).
+func boostEmptyKey(t *rapid.T) (map[string]interface{}, []Step, string) {
+	k := rapid.SampledFrom(shapeKeys).Draw(t, "k")
+	k2 := rapid.SampledFrom(shapeKeys).Draw(t, "k2")
+	inner := func() map[string]interface{} {
+		return map[string]interface{}{k: instScalar(t), k2: instScalar(t)}
+	}
+	root := map[string]interface{}{
+		"": map[string]interface{}{k: instScalar(t), "": inner(), k2: []interface{}{inner(), instScalar(t)}},
+		k:  instScalar(t),
+	}
+	if k2 != k {
+		root[k2] = map[string]interface{}{"": inner(), k: instScalar(t)}
+	}
+	var names []string
+	switch rapid.IntRange(0, 6).Draw(t, "ekpath") {
+	case 0:
+		names = []string{"", k}
+	case 1:
+		names = []string{"", "", k}
+	case 2:
+		names = []string{k2, "", k}
+	case 3:
+		names = []string{"", k2, k}
+	case 4:
+		names = []string{"*", k}
+	case 5:
+		names = []string{"", "*", k}
+	default:
+		names = []string{k}
+	}
+	var steps []Step
+	for _, n := range names {
+		steps = append(steps, Step{n, -1})
+	}
+	return root, steps, k
+}
